@@ -25,6 +25,8 @@ VARIANTS = {
  "early-drop-then-use": ([("        if unsafe { EC_KEY_set_private_key(*key.as_mut(), *bn.as_const()) }", "        let bnp = *bn.as_const();\n        drop(bn);\n        if unsafe { EC_KEY_set_private_key(*key.as_mut(), bnp) }")], []),
  "write-through-shared-key": ([("        compressed_pub_key(key)\n    }\n\n    pub fn verifying_key", "        unsafe { EC_KEY_set_group(*self.key.as_const() as *mut _, *key) };\n        compressed_pub_key(key)\n    }\n\n    pub fn verifying_key")], []),
  "unknown-ffi-call": ([("use aws_lc::{", "use aws_lc::{EC_KEY_up_ref, "), ("        Ok(Self { key })\n    }\n\n    pub fn encode", "        unsafe { EC_KEY_up_ref(*key.as_mut()) };\n        Ok(Self { key })\n    }\n\n    pub fn encode")], []),
+ "thread-state-read": ([("use aws_lc::{", "use aws_lc::{ERR_peek_error, "), ("        if res != 1 {\n" + RET + "\n        let sig = LcPtr::new(unsafe { ECDSA_SIG_from_bytes", "        if res != 1 || unsafe { ERR_peek_error() } != 0 {\n" + RET + "\n        let sig = LcPtr::new(unsafe { ECDSA_SIG_from_bytes")], []),
+ "rc-behind-unsafe-send": ([("pub struct SigningKey {\n    key: LcPtr<EC_KEY>,\n}", "pub struct SigningKey {\n    key: std::rc::Rc<LcPtr<EC_KEY>>,\n}")], []),
  "wrong-release-function": ([], [("create_pointer!(EC_POINT, EC_POINT_free);", "create_pointer!(EC_POINT, EC_GROUP_free);")]),
  "drop-frees-without-take": ([], [("        if let Some(mut pointer) = self.pointer.take() {\n            pointer.free();\n        }", "        if let Some(pointer) = self.pointer.as_mut() {\n            pointer.free();\n        }")]),
  "managed-drop-does-not-free": ([], [("        self.pointer.free();\n    }\n}\n\nimpl<'a, P: Pointer> From", "    }\n}\n\nimpl<'a, P: Pointer> From")]),
@@ -60,12 +62,12 @@ def main():
             na.append(k)
         else:
             texts[k] = t
-    lines = ["import PasetoModel.Ffi", "open PM.Ffi"]
+    lines = ["import PasetoModel.Ffi", "open PM.Ffi", 'def expectedFree : List (String × String) := [("u8", "OPENSSL_free"), ("EC_GROUP", "EC_GROUP_free"), ("EC_POINT", "EC_POINT_free"), ("EC_KEY", "EC_KEY_free"), ("ECDSA_SIG", "ECDSA_SIG_free"), ("BIGNUM", "BN_free")]']
     for k, t in texts.items():
         ns = "V_" + k.replace("-", "_")
         t = t.replace("import PasetoModel.Ffi\n", "").replace("namespace PM.Extracted.Ffi", "namespace " + ns).replace("end PM.Extracted.Ffi", "end " + ns)
         lines.append(t)
-        lines.append('#eval IO.println s!"RESULT %s {%s.fns.all Fn.ok && %s.unclassified.isEmpty && %s.sharedMutations.isEmpty && %s.managedDropFrees && %s.detachableDropFreesIffPresent && %s.detachTakes && %s.macroFreeCallsGiven && (%s.freeTable == [(\\"u8\\", \\"OPENSSL_free\\"), (\\"EC_GROUP\\", \\"EC_GROUP_free\\"), (\\"EC_POINT\\", \\"EC_POINT_free\\"), (\\"EC_KEY\\", \\"EC_KEY_free\\"), (\\"ECDSA_SIG\\", \\"ECDSA_SIG_free\\"), (\\"BIGNUM\\", \\"BN_free\\")])} {(%s.fns.filter (fun f => !f.ok)).map (fun f => (f.name, ((none :: (List.range f.body.length).map some).flatMap (fun fa => (run f fa).bad)).eraseDups))}"' % ((k,) + (ns,) * 9))
+        lines.append('#eval IO.println s!"RESULT %s {%s.fns.all Fn.ok && %s.unclassified.isEmpty && %s.sharedMutations.isEmpty && %s.threadStateCalls.isEmpty && %s.sendSyncFieldViolations.isEmpty && %s.managedDropFrees && %s.detachableDropFreesIffPresent && %s.detachTakes && %s.macroFreeCallsGiven && (%s.freeTable == expectedFree)} {(%s.fns.filter (fun f => !f.ok)).map (fun f => (f.name, ((none :: (List.range f.body.length).map some).flatMap (fun fa => (run f fa).bad)).eraseDups))}"' % ((k,) + (ns,) * 11))
     f = os.path.join(WORK, "selftest.lean")
     open(f, "w").write("\n".join(lines) + "\n")
     r = subprocess.run(["lake", "env", "lean", f], cwd=LEAN, capture_output=True, text=True, timeout=900)
